@@ -554,7 +554,7 @@ func (g *g) cmdWord(afterPrefix bool) string {
 			t.Pieces = []Piece{{Text: w}}
 			ps = []string{skel.Lit(w)}
 			g.f("reserved_as_word")
-			t.CmdPos = false
+			// still the command word: eligible for alias substitution
 			break
 		}
 		if afterPrefix {
@@ -563,7 +563,8 @@ func (g *g) cmdWord(afterPrefix bool) string {
 		fallthrough
 	default:
 		ps, t.Pieces = g.wordParts(nil, "cmdw", true, false)
-		t.CmdPos = false
+		// a word that is one unquoted literal is eligible for alias substitution
+		t.CmdPos = len(ps) == 1 && strings.HasPrefix(ps[0], "L\"")
 	}
 	g.s.add(t)
 	return skel.Word(ps)
